@@ -125,7 +125,7 @@ HARNESSES = [
     Harness("H16a-P", h16a, quick=dict(n=2, mode="P", kinds=["LIMIT", "LOC"]), thorough=dict(n=2, mode="P", statuses="all", kinds=["LIMIT", "LOC", "MOC"]), pattern="P1 kernel-with-oracle",
             requires=["exposure"], wall_s=(300, 3000), max_paths=(150000, 5000000),
             outside=["sizes outside the finite set %s (prices: every 2dp value in [1.01,1000], symbolic)" % pos.SIZES_K]),
-    Harness("H16b", h16b, quick=dict(S=2, mode="S"), thorough=dict(S=2, mode="S", sel0=(1, 2), extra=(0,)), pattern="P1 kernel-with-oracle", requires=["market"],
+    Harness("H16b", h16b, quick=dict(S=2, mode="S"), thorough=dict(S=2, mode="S", extra=(0, 1, 2)), pattern="P1 kernel-with-oracle", requires=["market"],
             wall_s=(300, 3000), max_paths=(150000, 5000000), outside=["more than S selections with bets, winners > 2", "limit-on-close orders in the market harness (covered by H16a)"]),
 ]
 META = {"assumptions": ["products price x size are kept linear by drawing one factor from a finite set (ite over a selector, no forking); "
